@@ -16,11 +16,12 @@
    value outside the normal range is not meaningful and the range lemmas exclude it.
    The same computation is written with Coq's primitive floats in Models/TimestampF.v; the two and the
    implementation are compared on generated cases inside coqc (Generated/CodecTsCases.v). *)
-From Coq Require Import ZArith Bool.
+From Coq Require Import ZArith Bool List.
 From FEC Require Import Generated.CodecConsts.
 Open Scope Z_scope.
 
-Inductive Codec_fval := FInt (z : Z) | FNaN.
+(* field values: an integer (also: the raw bits of a float), NaN-because-sentinel, or the bytes of a string *)
+Inductive Codec_fval := FInt (z : Z) | FNaN | FBytes (l : list Z).
 
 Definition Codec_sf := (Z * Z)%type.       (* m * 2^e, m >= 0 *)
 
@@ -80,6 +81,7 @@ Definition Codec_ts_dec (z : Z) : Codec_fval :=
 
 Definition Codec_ts_enc (v : Codec_fval) : option Z :=
   match v with
+  | FBytes _ => None
   | FNaN => Some (Codec_ts_join ts_invalid ts_invalid)
   | FInt bits =>
       if (bits <? 0) || (2047 * 2 ^ 52 <=? bits) then None        (* negative, inf or NaN pattern: not produced by decode *)
@@ -95,6 +97,7 @@ Definition Codec_ts_enc (v : Codec_fval) : option Z :=
 (* the code before the repair: truncation, no carry *)
 Definition Codec_ts_enc_legacy (v : Codec_fval) : option Z :=
   match v with
+  | FBytes _ => None
   | FNaN => Some (Codec_ts_join ts_invalid ts_invalid)
   | FInt bits =>
       if (bits <? 0) || (2047 * 2 ^ 52 <=? bits) then None
